@@ -334,8 +334,8 @@ def run(tier):
     # 4. thorough tier: thread counts and Kronecker inflations
     if not quick:
         for th in (1, 4, 16):
-            dis, gen, stats = machine_phase(ck, exe, "thr%d" % th, 1, "inflate", "all", 16,
-                                            harness_opts=["threads=%d" % th, "infl=%d" % (64 if th > 1 else 32)],
+            dis, gen, stats = machine_phase(ck, exe, "thr%d" % th, 1, "reduced", "all", 16,
+                                            harness_opts=["threads=%d" % th, "infl=%d" % (96 if th > 1 else 64)],
                                             nproc=NPROC)
             states += dis
             trans += gen
